@@ -103,6 +103,8 @@ def run(chk, tier, seed):
             oterms.append((m["n"], "echo_oracle %d %s %s %s %s" % (e, tI, tJ, cx, ot)))
         else:
             terms.append((m["n"], "agree_byref_seen %d %s %s %s %s" % (e, tI, tJ, cx, lterm)))
+            # the same predicate is the property: the implementation sees the value as transmitted in the effective version's format
+            oterms.append((m["n"], "agree_byref_seen %d %s %s %s %s" % (e, tI, tJ, cx, lterm)))
             if m["meth"] == "mixed" and kind == "OK" and rest != "7|héllo|[1, 2, 65535]":
                 chk.violations.append(("&str / slice / u32 arguments or the String return value arrive changed: " + rest[:80], base))
     bad, errs = C.coq_eval_bad("C10", A.HEADER, terms, shard=100)
@@ -120,7 +122,8 @@ def run(chk, tier, seed):
         if m["j"] > m["i"] and known.get("F1", {}).get("status") == "open":
             f1_seen += 1
             continue
-        chk.violations.append(("a value returned across versions (caller v%d, implementation v%d) is not what transmission in the effective version's format gives" % (m["i"], m["j"]),
+        chk.violations.append((("a value returned across versions (caller v%d, implementation v%d) is not what transmission in the effective version's format gives" if m["meth"] == "echo" else
+                                "the argument the implementation observes (caller v%d, implementation v%d, passed by reference or serialized) is not the value transmitted in the effective version's format") % (m["i"], m["j"]),
                                {"family_history": fam["edits"], "harness_line": lines[m["n"] - 1], "observed": obs.get(byn[i], "")[:400]}))
     if f1_seen:
         chk.known_lines.append("F1: the implementation serialises return values at its own version but labels them with the negotiated one (%d failing newer-implementation echo calls)" % f1_seen)
